@@ -6,6 +6,7 @@
 EXTENDS S3Gw
 CONSTANTS Mode,       \* "plain" (no versioning calls) | "versioned" | "burst" (only writes: put / delete)
                       \* | "history" (every word over put / delete / toggle versioning / delete-newest-by-id on one key)
+                      \* | "alias" (one directed behaviour: copy, then in-place attribute rewrites on either key)
           PreExisting, \* TRUE: the bucket starts with an object written before versioning was enabled
           InitBucket, InitKey, InitContent   \* the bucket that exists initially / the pre-existing object
 
@@ -69,7 +70,28 @@ OpHist ==
     \/ Stack(TheBucket, AKey) # <<>> /\ bkts[TheBucket].ver # "Unset"
           /\ DeleteObjectVersion(TheBucket, AKey, Head1(Stack(TheBucket, AKey)).vid)
 
-Op == IF Mode = "burst" THEN OpBurst ELSE IF Mode = "history" THEN OpHist ELSE OpAll
+\* alias: ONE directed behaviour - an object, a copy of it under a second key, then the
+\* attributes of either are rewritten in place (tagging) and the OTHER one is read: a copy is an
+\* object of its own, whatever the two share on the storage
+A1 == "k1"
+A2 == "k2"
+OpAlias ==
+    LET n == Len(tr) IN
+    CASE n = 0 -> PutObject(TheBucket, A1, "A", "A")
+      [] n = 1 -> CopyObject(TheBucket, A1, TheBucket, A2)
+      [] n = 2 -> PutObjectTagging(TheBucket, A1, "-", "B")
+      [] n = 3 -> GetObjectTagging(TheBucket, A2, "-")
+      [] n = 4 -> HeadObject(TheBucket, A2)
+      [] n = 5 -> DeleteObjectTagging(TheBucket, A1, "-")
+      [] n = 6 -> GetObjectTagging(TheBucket, A2, "-")
+      [] n = 7 -> PutObjectTagging(TheBucket, A2, "-", "C")
+      [] n = 8 -> GetObjectTagging(TheBucket, A1, "-")
+      [] n = 9 -> GetObject(TheBucket, A1)
+      [] n = 10 -> PutObject(TheBucket, A1, "B", "-")
+      [] n = 11 -> GetObject(TheBucket, A2)
+      [] OTHER -> FALSE
+
+Op == IF Mode = "burst" THEN OpBurst ELSE IF Mode = "history" THEN OpHist ELSE IF Mode = "alias" THEN OpAlias ELSE OpAll
 
 Report == /\ Len(tr) = MaxOps
           /\ PrintT(ToJson([tr |-> tr]))
